@@ -5,7 +5,8 @@
   the model's semantics of one step (built from the model functions the correspondence check ties to
   the real code); `Inv` is `Consistent` plus "the iterator's cursor is void, or stands on a record of
   its section"; `Allowed` spells out the documented preconditions and the by-design exclusions
-  (KF1–KF5).  `step_inv`: every allowed step that returns keeps `Inv`; `run_inv`: so does every run.
+  (KF1–KF5).  `step_inv`: every allowed step that returns keeps `Inv`; `run_inv`: so does every run;
+  `step_total` / `run_total`: every allowed step / script does return (no panic, no divergence).
 -/
 import DnsModel.Theorems.C08
 import DnsModel.Theorems.C10
@@ -636,6 +637,224 @@ theorem inv_start {pp0 : PP} {p : Bytes} {v : View} (F : Fresh pp0 p v) (hmp : p
     ∃ (L : C03.Layout p) (o : C05.Output p L) (v2 : View), Inv ⟨pp0.rebased o.bytes v2, none⟩ := by
   obtain ⟨L, o, v2, _, _, ⟨P, hc, he⟩⟩ := after_decompression F hmp
   exact ⟨L, o, v2, P, hc, he, trivial⟩
+
+
+/-! ### no allowed step panics -/
+
+/-- on a plain object `insert_rr` always returns (a record of the right shape, QR permitting) -/
+theorem insert_returns {pp : PP} (P : PlainObj pp) (sec : Section) (hrec : sec.isRec = true) (rr : Bytes)
+    (hpc : ∀ b, PieceOK sec rr b b) (hqr : sec ≠ .additional → get16 pp.packet 2 / 32768 % 2 = 1) :
+    ∃ pp' e, insertRR pp sec rr = .ok (pp', e) := by
+  by_cases hsize : pp.packet.length + rr.length ≤ 8192
+  · by_cases hcount : (P.lst sec).length < 65535
+    · cases sec with
+      | answer =>
+        have hq : get16 P.hdr 2 / 32768 % 2 = 1 := by rw [← qr_of_packet P]; exact hqr (by decide)
+        obtain ⟨pp', _, h, _⟩ := insert_answer P rr (hpc _) hsize hcount hq
+        exact ⟨pp', none, h⟩
+      | nameServers =>
+        have hq : get16 P.hdr 2 / 32768 % 2 = 1 := by rw [← qr_of_packet P]; exact hqr (by decide)
+        obtain ⟨pp', _, h, _⟩ := insert_authority P rr (hpc _) hsize hcount hq
+        exact ⟨pp', none, h⟩
+      | additional =>
+        obtain ⟨pp', _, h, _⟩ := insert_additional P rr (hpc _) hsize hcount
+        exact ⟨pp', none, h⟩
+      | question => simp [Section.isRec] at hrec
+      | edns => simp [Section.isRec] at hrec
+    · exact ⟨pp, _, insert_count_full P sec hrec rr hsize (by omega)⟩
+  · exact ⟨pp, _, C10.insert_too_large pp sec rr P.mc (by omega)⟩
+
+/-- under the invariant and the preconditions every step returns: no panic, no divergence, no
+internal error -/
+theorem step_total {s : St} (op : Op) (h : Inv s) (ha : Allowed s op) : ∃ s' e, applyOp s op = .ok (s', e) := by
+  obtain ⟨P, hc, he, hcur⟩ := h
+  cases op with
+  | openIter sec => exact ⟨_, _, rfl⟩
+  | close => exact ⟨_, _, rfl⟩
+  | next =>
+    simp only [applyOp]
+    cases hs : s.cur with
+    | none => exact ⟨_, _, rfl⟩
+    | some c =>
+      rw [hs] at hcur
+      obtain ⟨hrec, hpos⟩ := hcur
+      have hat : ∃ j, CurAt P c.sec j c := by
+        rcases hpos with hv | ⟨j, hon⟩
+        · exact ⟨0, rfl, Or.inl ⟨hv, rfl⟩⟩
+        · exact ⟨j + 1, hon.curAt_succ⟩
+      obtain ⟨j, hat⟩ := hat
+      by_cases hj : j < (P.lst c.sec).length
+      · obtain ⟨ne, ob, oa, hr, hnx⟩ := next_some P c.sec hrec j c hat hj
+        simp only [hnx, bind_ok]
+        exact ⟨_, _, rfl⟩
+      · simp only [next_none P c.sec hrec j c hat hj, bind_ok]
+        exact ⟨_, _, rfl⟩
+  | delete =>
+    simp only [applyOp]
+    cases hs : s.cur with
+    | none => exact ⟨_, _, rfl⟩
+    | some c =>
+      rw [hs] at hcur
+      obtain ⟨hrec, hpos⟩ := hcur
+      rcases hpos with hv | ⟨j, hon⟩
+      · simp only [delete_void s.pp c hv, bind_ok]
+        exact ⟨_, _, rfl⟩
+      · obtain ⟨hj, ob, oa, hsec, hoff, hnext, hleft, hr⟩ := hon
+        obtain ⟨st, hdel, _⟩ := delete_consistent P he c.sec hrec (split_at (P.lst c.sec) j hj) c hr hoff hnext rfl
+        simp only [hdel, bind_ok]
+        exact ⟨_, _, rfl⟩
+  | setTtl ttl =>
+    obtain ⟨⟨c, hs, hsome⟩, hnot⟩ := ha
+    simp only [applyOp, hs]
+    rw [hs] at hcur
+    obtain ⟨hrec, hpos⟩ := hcur
+    rcases hpos with hv | ⟨j, hon⟩
+    · rw [hv] at hsome; cases hsome
+    · have hty := type_under P c.sec j c hon
+      have h41 := hnot c hs _ hty
+      obtain ⟨hj, ob, oa, hsec, hoff, hnext, hleft, hr⟩ := hon
+      obtain ⟨_, _, _, pp', _, _, _, _, hset, _⟩ := set_ttl_consistent P hc he c.sec hrec (split_at (P.lst c.sec) j hj) c hr hoff rfl h41 ttl
+      simp only [hset, bind_ok]
+      exact ⟨_, _, rfl⟩
+  | setIp ip =>
+    obtain ⟨c, hs, hsome⟩ := ha
+    simp only [applyOp, hs]
+    rw [hs] at hcur
+    obtain ⟨hrec, hpos⟩ := hcur
+    rcases hpos with hv | ⟨j, hon⟩
+    · rw [hv] at hsome; cases hsome
+    · have hty := type_under P c.sec j c hon
+      obtain ⟨hj, ob, oa, hsec, hoff, hnext, hleft, hr⟩ := hon
+      -- either an address record with the right family (the success theorem), or an error value
+      by_cases hfam : (get16 s.pp.packet c.nameEnd = 1 ∧ ip.length = 4) ∨ (get16 s.pp.packet c.nameEnd = 28 ∧ ip.length = 16)
+      · obtain ⟨_, _, _, pp', _, _, _, _, _, hset, _⟩ := set_ip_consistent P hc he c.sec hrec (split_at (P.lst c.sec) j hj) c hr hoff rfl ip hfam
+        simp only [hset, bind_ok]
+        exact ⟨_, _, rfl⟩
+      · have : ∃ e, setRrIp s.pp c ip = .ok (s.pp, some e) := by
+          unfold setRrIp
+          rw [hty]
+          simp only [bind_ok]
+          by_cases h1 : (get16 s.pp.packet c.nameEnd == TYPE_A) = true
+          · have h4 : (ip.length == 4) = false := by
+              cases h4 : (ip.length == 4) with
+              | false => rfl
+              | true => exact absurd (Or.inl ⟨by simpa [TYPE_A] using h1, by simpa using h4⟩) hfam
+            simp only [h1, if_true, h4, Bool.false_eq_true, if_false, pure_eq]
+            exact ⟨_, rfl⟩
+          · simp only [h1, Bool.false_eq_true, if_false]
+            by_cases h3 : (get16 s.pp.packet c.nameEnd == TYPE_AAAA) = true
+            · have h16 : (ip.length == 16) = false := by
+                cases h16 : (ip.length == 16) with
+                | false => rfl
+                | true => exact absurd (Or.inr ⟨by simpa [TYPE_AAAA] using h3, by simpa using h16⟩) hfam
+              simp only [h3, if_true, h16, Bool.false_eq_true, if_false, pure_eq]
+              exact ⟨_, rfl⟩
+            · simp only [h3, Bool.false_eq_true, if_false, pure_eq]
+              exact ⟨_, rfl⟩
+        obtain ⟨e, he'⟩ := this
+        simp only [he', bind_ok]
+        exact ⟨_, _, rfl⟩
+  | setName owner' =>
+    obtain ⟨hgo', hnot⟩ := ha
+    simp only [applyOp]
+    cases hs : s.cur with
+    | none => exact ⟨_, _, rfl⟩
+    | some c =>
+      rw [hs] at hcur
+      obtain ⟨hrec, hpos⟩ := hcur
+      rcases hpos with hv | ⟨j, hon⟩
+      · simp only [C10.set_name_void s.pp c (encLabels owner' ++ [0]) (checkArg_ok owner' hgo') P.mc hv, bind_ok]
+        exact ⟨_, _, rfl⟩
+      · have hty := type_under P c.sec j c hon
+        have h41 := hnot c hs _ hty
+        obtain ⟨hj, ob, oa, hsec, hoff, hnext, hleft, hr⟩ := hon
+        by_cases hsz : c.nameEnd - (P.start c.sec + ((P.lst c.sec).take j).flatten.length) < labSum owner' + 1 →
+            s.pp.packet.length + (labSum owner' + 1) - (c.nameEnd - (P.start c.sec + ((P.lst c.sec).take j).flatten.length)) ≤ 65535
+        · obtain ⟨pp', c', _, _, hset, _⟩ :=
+            set_name_consistent P he c.sec hrec (split_at (P.lst c.sec) j hj) c hr hoff hnext rfl rfl
+              (by rw [hleft]; simp; omega) h41 owner' hgo' hsz
+          simp only [hset, mOk, bind_ok]
+          exact ⟨_, _, rfl⟩
+        · have hgrow : c.nameEnd - (P.start c.sec + ((P.lst c.sec).take j).flatten.length) < labSum owner' + 1 :=
+            Classical.byContradiction (fun hn => hsz (fun h => absurd h hn))
+          have hbig : s.pp.packet.length + (labSum owner' + 1) - (c.nameEnd - (P.start c.sec + ((P.lst c.sec).take j).flatten.length)) > 65535 := by
+            apply Classical.byContradiction
+            intro hn
+            exact hsz (fun _ => by omega)
+          simp only [C10.set_name_too_large P c.sec hrec (split_at (P.lst c.sec) j hj) c hr hoff rfl owner' hgo' hgrow hbig, bind_ok]
+          exact ⟨_, _, rfl⟩
+  | insert sec rr =>
+    obtain ⟨hrec, hpc, hqr⟩ := ha
+    simp only [applyOp]
+    cases hs : s.cur with
+    | some c => exact ⟨_, _, rfl⟩
+    | none =>
+      obtain ⟨pp', e, hins⟩ := insert_returns P sec hrec rr hpc hqr
+      simp only [hins, bind_ok]
+      exact ⟨_, _, rfl⟩
+  | recompute =>
+    simp only [applyOp]
+    cases hs : s.cur with
+    | some c => exact ⟨_, _, rfl⟩
+    | none =>
+      simp only [recompute_plain s.pp P.mc, bind_ok]
+      exact ⟨_, _, rfl⟩
+  | setTid n =>
+    simp only [applyOp]
+    cases hs : s.cur with
+    | some c => exact ⟨_, _, rfl⟩
+    | none =>
+      obtain ⟨p', hset, _⟩ := C12.set_tid_frame s.pp.packet n (hdr_len P)
+      simp only [hset, bind_ok]
+      exact ⟨_, _, rfl⟩
+  | setFlags n =>
+    simp only [applyOp]
+    cases hs : s.cur with
+    | some c => exact ⟨_, _, rfl⟩
+    | none =>
+      obtain ⟨p', hset, _⟩ := C12.set_flags_frame s.pp.packet n (hdr_len P)
+      simp only [hset, bind_ok]
+      exact ⟨_, _, rfl⟩
+  | setResponse b =>
+    simp only [applyOp]
+    cases hs : s.cur with
+    | some c => exact ⟨_, _, rfl⟩
+    | none =>
+      obtain ⟨p', hset, _⟩ := C12.set_response_frame s.pp.packet b (hdr_len P)
+      simp only [hset, bind_ok]
+      exact ⟨_, _, rfl⟩
+  | setRcode n =>
+    simp only [applyOp]
+    cases hs : s.cur with
+    | some c => exact ⟨_, _, rfl⟩
+    | none =>
+      obtain ⟨p', hset, _⟩ := C12.set_rcode_frame s.pp.packet n (hdr_len P)
+      simp only [hset, bind_ok]
+      exact ⟨_, _, rfl⟩
+  | setOpcode n =>
+    simp only [applyOp]
+    cases hs : s.cur with
+    | some c => exact ⟨_, _, rfl⟩
+    | none =>
+      obtain ⟨p', hset, _⟩ := C12.set_opcode_frame s.pp.packet n (hdr_len P)
+      simp only [hset, bind_ok]
+      exact ⟨_, _, rfl⟩
+
+/-- **total correctness of scripts**: from a consistent state, every finite script of allowed operations
+runs to the end — no panic, no divergence, no internal error — and ends in a consistent state -/
+theorem run_total : ∀ (ops : List Op) (s : St), Inv s → AllowedRun s ops → ∃ s', run s ops = .ok s' ∧ Inv s' := by
+  intro ops
+  induction ops with
+  | nil => intro s h _; exact ⟨s, rfl, h⟩
+  | cons op ops ih =>
+    intro s h ha
+    obtain ⟨ha1, ha2⟩ := ha
+    obtain ⟨s1, e1, hstep⟩ := step_total op h ha1
+    obtain ⟨s', hr, hi⟩ := ih s1 (step_inv op h ha1 hstep) (ha2 s1 e1 hstep)
+    refine ⟨s', ?_, hi⟩
+    unfold run
+    rw [hstep]
+    exact hr
 
 /-- the preconditions are satisfiable: walking into a section and deleting what is found is always allowed -/
 example (s : St) : AllowedRun s [.openIter .answer, .next, .delete, .next, .close, .recompute] := by
